@@ -1,5 +1,7 @@
 package control
 
+import "github.com/sirupsen/logrus"
+
 // C20 harness accessors (injected by `go test -overlay` only while the C20 check builds package
 // cmd's test binary; never part of /repo).  A retiring "old generation" for the real
 // startControlPlaneRetirement / waitForControlPlaneDrain: a ControlPlane that has nothing but the
@@ -14,3 +16,9 @@ func (c *ControlPlane) VerifC20OpenSession() func() { return c.acquireDrainTicke
 
 // VerifC20Aborted reports whether AbortConnections ran on this generation.
 func (c *ControlPlane) VerifC20Aborted() bool { return c.rejectNewConnections.Load() }
+
+// VerifC20NewSuccessor: a "new generation" for RunReloadRetirementCleanup — no BPF objects (every
+// map clean-up finds nothing), but the real lock and the real log line.
+func VerifC20NewSuccessor(log *logrus.Logger) *ControlPlane {
+	return &ControlPlane{log: log, drainTracker: newControlPlaneDrainTracker()}
+}
